@@ -366,6 +366,8 @@ class Interp:
         if not isinstance(f, Closure):
             if isinstance(f, (list, str, NDict)):
                 raise Decline("calling a sequence")
+            if any(isinstance(a, Closure) for a in args):
+                raise Decline("non-function applied to a function (reverse application)")
             self.note("fault:call-nonfunction")
             raise builtin_error()
         cenv = Env(f.env)
